@@ -12,19 +12,26 @@
 (* A layout is a sequence of fields                                        *)
 (*   [attr, name, ty]                                                      *)
 (*   attr \in {"none","source","not_source","backtrace","not_backtrace",   *)
-(*             "ignore","source_backtrace"}                                *)
+(*             "ignore","source_backtrace"} and the two-parameter spellings*)
+(*             "nb_source" = #[error(not(backtrace), source)], "source_nb",*)
+(*             "ns_backtrace" = #[error(not(source), backtrace)],          *)
+(*             "backtrace_ns" (every parameter of one attribute counts,    *)
+(*             in any order)                                               *)
 (*   name \in {"source","backtrace","other"}   (meaningful when named)     *)
 (*   ty   \in {"err","generic","assoc","box","bt"} ("bt": a type whose path *)
 (*             ends in `Backtrace`)                                        *)
 (***************************************************************************)
 EXTENDS Naturals, Sequences, FiniteSets, TLC
 
-Attrs == {"none", "source", "not_source", "backtrace", "not_backtrace", "ignore", "source_backtrace"}
+Attrs == {"none", "source", "not_source", "backtrace", "not_backtrace", "ignore", "source_backtrace",
+          "nb_source", "source_nb", "ns_backtrace", "backtrace_ns"}
 Names == {"source", "backtrace", "other"}
 Types == {"err", "generic", "assoc", "box", "bt"}     \* "assoc": `T::Assoc` of a type parameter
 
-SrcFlag(a) == CASE a \in {"source", "source_backtrace"} -> "yes" [] a = "not_source" -> "no" [] OTHER -> "unset"
-BtFlag(a)  == CASE a \in {"backtrace", "source_backtrace"} -> "yes" [] a = "not_backtrace" -> "no" [] OTHER -> "unset"
+SrcFlag(a) == CASE a \in {"source", "source_backtrace", "nb_source", "source_nb"} -> "yes"
+                [] a \in {"not_source", "ns_backtrace", "backtrace_ns"} -> "no" [] OTHER -> "unset"
+BtFlag(a)  == CASE a \in {"backtrace", "source_backtrace", "ns_backtrace", "backtrace_ns"} -> "yes"
+                [] a \in {"not_backtrace", "nb_source", "source_nb"} -> "no" [] OTHER -> "unset"
 Ignored(f) == f.attr = "ignore"
 
 All(l)     == 1..Len(l)
@@ -148,6 +155,27 @@ ImplProvide(l, named, isVariant) ==
         ELSE LET bAll == IF isVariant /\ ~IndexFix THEN b[2] ELSE es[b[2]] IN
              IF sel.res = "field" /\ sel.k = b[2] THEN <<"from_source", bAll>> ELSE <<"field", bAll>>
 Provide(l, named, isVariant) == ImplProvide(l, named, isVariant) = DocProvide(l, named)
+
+(***************************************************************************)
+(* The enum around a variant: its companion variant                        *)
+(*   comp \in {"unit" (`Other`), "ignored" (`#[error(ignore)] Ign(E)`),     *)
+(*             "sourced" (`W { source: E }`)}                              *)
+(* Doc: a value of the companion variant has the source its own layout     *)
+(* gives (none / none - the whole variant is ignored / its field); the     *)
+(* generated `match` must cover every variant, whatever the mix.           *)
+(* Impl: render_enum - one arm per ENABLED variant that has a source; a    *)
+(* catch-all `_ => None` is added when there are fewer arms than variants  *)
+(* (ALL variants, ignored ones included).                                  *)
+(***************************************************************************)
+DocCompanion(comp) == IF comp = "sourced" THEN <<"field", 1>> ELSE <<"none">>
+ImplMatchCovers(l, named, comp) ==
+    LET mainArm == IF ImplSel(l, named).res = "field" THEN 1 ELSE 0
+        compArm == IF comp = "sourced" THEN 1 ELSE 0
+        arms == mainArm + compArm
+        variants == 2                                   \* state.variants.len(): ignored ones count
+        wildcard == arms # 0 /\ arms < variants
+    IN  arms = 0 \/ wildcard \/ arms = variants          \* arms = 0: the body is `None` without a match
+Exhaustive(l, named, comp) == ImplMatchCovers(l, named, comp)
 
 (***************************************************************************)
 (* Properties of one layout                                                *)
